@@ -123,7 +123,11 @@ JudgeRestart(e) ==
       Tag(\E o \in outcomes : Same(o, obs), "Crash.outcome-not-in-model") \o
       Tag(\E o \in outcomes : Same(o, obs) /\ o.cache = obs.cache, "Restart.cache") \o
       Tag(~e.state.addMark /\ ~e.state.rmMark /\ ~e.state.reorgMark, "Model.MarksLeft") \o
-      (IF obs.latest \in CrashHeadStrict(tr, cheads) THEN <<>>
+      (IF cheads = <<>> THEN <<>>      \* the death was inside a fork switch of the sync processor: an extension
+                                      \* beyond C05's entry point, whose uninterrupted run can itself end below the
+                                      \* old head (Ext.WeightMonotone.fork-path); the head clause is not judged, the
+                                      \* stores and the outcome are (JudgeInv, Crash.outcome-not-in-model)
+       ELSE IF obs.latest \in CrashHeadStrict(tr, cheads) THEN <<>>
        ELSE IF obs.latest \in CrashHeadWeak(tr, cheads) THEN <<"Crash.HeadStrict.ancestor-of-old-head">>
        ELSE <<"Crash.HeadNotAllowed">>)
 
@@ -158,7 +162,8 @@ TraceNext ==
                  /\ UNCHANGED <<tr, txIds, pend, cheads>>
             [] e.event \in {"Crash", "Died"} ->
                  /\ pend' = CrashStates(e)
-                 /\ cheads' = IF e.phase = "deliver" THEN HeadsOfCall(tr, CallBegin(e)) ELSE cheads
+                 /\ cheads' = IF e.phase # "deliver" THEN cheads
+                              ELSE IF e.kind = "F" THEN <<>> ELSE HeadsOfCall(tr, CallBegin(e))
                  /\ UNCHANGED <<tr, txIds, ms>>
             [] e.event = "Stop" ->      \* a clean stop at a quiescent point: the next event is a Restart
                  /\ pend' = {ms} /\ cheads' = <<ms.latest>>
